@@ -140,9 +140,8 @@ func (x *c19) certID(v ssa.Value, fr *c19Frame) int {
 			continue
 		case *ssa.Parameter:
 			if fr != nil {
-				args := fr.call.Common().Args
-				if j := c19ParamIndex(t); j >= 0 && j < len(args) {
-					v, fr = args[j], fr.parent
+				if a, afr, ok := fr.arg(c19ParamIndex(t)); ok {
+					v, fr = a, afr
 					continue
 				}
 			}
@@ -227,9 +226,8 @@ func (ev *c19LinEval) eval(v ssa.Value, idx int, fr *c19Frame, depth int) []c19L
 		return ev.eval(t.Tuple, t.Index, fr, depth+1)
 	case *ssa.Parameter:
 		if fr != nil {
-			args := fr.call.Common().Args
-			if i := c19ParamIndex(t); i >= 0 && i < len(args) {
-				return ev.eval(args[i], -1, fr.parent, depth+1)
+			if a, afr, ok := fr.arg(c19ParamIndex(t)); ok {
+				return ev.eval(a, -1, afr, depth+1)
 			}
 		}
 		sites, ok := x.callers(t.Parent())
@@ -343,20 +341,25 @@ func (ev *c19LinEval) eval(v ssa.Value, idx int, fr *c19Frame, depth int) []c19L
 				return c19MapLin(ev.eval(cc.Args[len(cc.Args)-1], -1, fr, depth+1), func(a c19Lin) c19Lin { return c19LinAdd(c19LinSym("now"), a, -1) })
 			}
 		}
-		if cal := x.pkgCallee(t); cal != nil && !c19FrameHas(fr, cal) && c19FrameDepth(fr) < 8 {
-			nf := &c19Frame{call: t, parent: fr}
+		if c19FrameDepth(fr) < 8 {
 			var out []c19Lin
 			i := idx
 			if i < 0 {
 				i = 0
 			}
-			allInstrs(cal, func(in ssa.Instruction) {
-				if ret, ok := in.(*ssa.Return); ok && i < len(ret.Results) {
-					for _, u := range unspill(ret.Results[i]) {
-						out = append(out, ev.eval(u, -1, nf, depth+1)...)
-					}
+			for _, nf := range x.enter(t, fr) {
+				if c19FrameHas(fr, nf.fn) {
+					continue
 				}
-			})
+				nf := nf
+				allInstrs(nf.fn, func(in ssa.Instruction) {
+					if ret, ok := in.(*ssa.Return); ok && i < len(ret.Results) {
+						for _, u := range unspill(ret.Results[i]) {
+							out = append(out, ev.eval(u, -1, nf, depth+1)...)
+						}
+					}
+				})
+			}
 			if len(out) > 0 {
 				return out
 			}
@@ -443,9 +446,8 @@ func (x *c19) atMost(v ssa.Value, fr *c19Frame, bound int64, depth int) bool {
 		return x.atMost(t.X, fr, bound, depth+1)
 	case *ssa.Parameter:
 		if fr != nil {
-			args := fr.call.Common().Args
-			if i := c19ParamIndex(t); i >= 0 && i < len(args) {
-				return x.atMost(args[i], fr.parent, bound, depth+1)
+			if a, afr, ok := fr.arg(c19ParamIndex(t)); ok {
+				return x.atMost(a, afr, bound, depth+1)
 			}
 		}
 		sites, ok := x.callers(t.Parent())
@@ -550,9 +552,8 @@ func (x *c19) durParts(v ssa.Value, fr *c19Frame, depth int, out *[]c19SinkVal) 
 		return
 	case *ssa.Parameter:
 		if fr != nil {
-			args := fr.call.Common().Args
-			if i := c19ParamIndex(t); i >= 0 && i < len(args) {
-				x.durParts(args[i], fr.parent, depth+1, out)
+			if a, afr, ok := fr.arg(c19ParamIndex(t)); ok {
+				x.durParts(a, afr, depth+1, out)
 				return
 			}
 		}
@@ -743,7 +744,7 @@ func (x *c19) nextWaits(start, prev *ssa.BasicBlock, waits map[*ssa.Function]boo
 				if waits[cal] {
 					// the waits of the helper, with its parameters bound to this call
 					n := 0
-					x.explore(cal, &c19Frame{call: t}, func(j ssa.Instruction, fr *c19Frame) {
+					x.explore(cal, &c19Frame{call: t, fn: cal}, func(j ssa.Instruction, fr *c19Frame) {
 						if cj, ok := j.(*ssa.Call); ok {
 							if d, ok := c19ClockWait(cj); ok {
 								n++
